@@ -3,7 +3,7 @@
    Join and Pop as single steps). *)
 From Coq Require Import ZArith List Bool Arith Lia Permutation.
 Import ListNotations.
-From Mds Require Import Gen.RingIdx Ring.RingModel Ring.RingSpec Ring.RingProofsBase Ring.RingProofsRep
+From Mds Require Import Gen.RingIdx Ring.RingBase Ring.RingPlain Ring.RingSpec Ring.RingProofsBase Ring.RingProofsRep
   Ring.RingProofsObs Ring.RingProofsOps Ring.RingProofsNew.
 
 Section Main.
@@ -67,7 +67,8 @@ Proof.
   apply Nat.ltb_lt in Hr.
   destruct (scan_spec T Z (fun n _ => (len_inc n, true)) (fun n _ => ret (len_inc n, true)) h st a 0%Z R Hr)
     as [t [rest [E Hrun]]]; [reflexivity|].
-  unfold a_len, with_cycle, len, len_nil. rewrite enc_nil, E, Hrun. rewrite len_pure.
+  unfold a_len, with_cycle, len, len_nil. rewrite enc_nil, E. erewrite bind_ok by exact Hrun.
+  unfold ret. cbn [to_out]. rewrite len_pure.
   split; [reflexivity|exact R].
 Qed.
 
